@@ -60,45 +60,45 @@ impl SigV4Authenticator {
     {}
 
 //@ fn auth.rs impl SigV4Authenticator :: builder
-//@ props C08
+//@ props C08 C17
 //@ ret r
 //@ spec
     ensures r.canonical_request_sha256 is None, r.credential is None, r.session_token is None, r.signature is None, r.request_timestamp is None
 //@ end
 //@ fn auth.rs impl SigV4Authenticator :: canonical_request_sha256
-//@ props C08 C01
+//@ props C08 C01 C17
 //@ ret r
 //@ spec
     ensures r@ == self.creq_hash()
 //@ end
 //@ fn auth.rs impl SigV4Authenticator :: credential
-//@ props C08 C03
+//@ props C08 C03 C17
 //@ ret r
 //@ spec
     ensures r.spec_bytes() == self.cred()
 //@ end
 //@ fn auth.rs impl SigV4Authenticator :: session_token
-//@ props C08 C03
+//@ props C08 C03 C17
 //@ ret r
 //@ replace 1 `self.session_token.as_deref()` => `option_string_as_deref(&self.session_token)`
 //@ spec
     ensures self.token() is None ==> r is None, self.token() is Some ==> r is Some && r->Some_0@ == self.token()->Some_0@
 //@ end
 //@ fn auth.rs impl SigV4Authenticator :: signature
-//@ props C08 C01
+//@ props C08 C01 C17
 //@ ret r
 //@ spec
     ensures r.spec_bytes() == self.sig()
 //@ end
 //@ fn auth.rs impl SigV4Authenticator :: request_timestamp
-//@ props C08 C04
+//@ props C08 C04 C17
 //@ ret r
 //@ spec
     ensures r.ns == self.ts()
 //@ end
 
 //@ fn auth.rs impl SigV4Authenticator :: prevalidate
-//@ props C08 C03 C04 C13
+//@ props C08 C03 C04 C13 C17
 //@ ret r
 //@ replace 1 `self.credential().split('/').collect::<Vec<&str>>()` => `str_split_to_vec(self.credential(), '/')`
 //@ replace 1 `cscope_date != expected_cscope_date` => `str_ne_string(cscope_date, &expected_cscope_date)`
@@ -107,13 +107,14 @@ impl SigV4Authenticator {
     ensures
         self.ts() < window_lo(server_timestamp, allowed_mismatch) ==> r is Err && r->Err_0 is SignatureDoesNotMatch, //# C04 C13 name=expired_is_signature_mismatch
         self.ts() > window_hi(server_timestamp, allowed_mismatch) ==> r is Err && r->Err_0 is SignatureDoesNotMatch, //# C04 C13 name=not_yet_valid_is_signature_mismatch
-        (window_lo(server_timestamp, allowed_mismatch) <= self.ts() <= window_hi(server_timestamp, allowed_mismatch)) ==> {
-            &&& (split(self.cred(), 0x2f).len() != 5 ==> r is Err && r->Err_0 is IncompleteSignature)
-            &&& (split(self.cred(), 0x2f).len() == 5 && !scope_ok(self.cred(), region.spec_bytes(), service.spec_bytes(), self.ts()) ==> r is Err && r->Err_0 is SignatureDoesNotMatch)
-            &&& (scope_ok(self.cred(), region.spec_bytes(), service.spec_bytes(), self.ts()) ==> r is Ok)
-        }, //# C03 C04 C02 C13 name=inside_window_decided_by_scope_alone
-        r is Ok ==> (window_lo(server_timestamp, allowed_mismatch) <= self.ts() <= window_hi(server_timestamp, allowed_mismatch))
-            && scope_ok(self.cred(), region.spec_bytes(), service.spec_bytes(), self.ts()), //# C03 C04 C01 name=ok_implies_fresh_and_in_scope
+        (window_lo(server_timestamp, allowed_mismatch) <= self.ts() <= window_hi(server_timestamp, allowed_mismatch)) && split(self.cred(), 0x2f).len() != 5
+            ==> r is Err && r->Err_0 is IncompleteSignature, //# C03 C13 name=wrong_arity_is_incomplete_signature
+        (window_lo(server_timestamp, allowed_mismatch) <= self.ts() <= window_hi(server_timestamp, allowed_mismatch)) && split(self.cred(), 0x2f).len() == 5
+            && !scope_ok(self.cred(), region.spec_bytes(), service.spec_bytes(), self.ts()) ==> r is Err && r->Err_0 is SignatureDoesNotMatch, //# C03 C13 name=scope_mismatch_is_signature_mismatch
+        (window_lo(server_timestamp, allowed_mismatch) <= self.ts() <= window_hi(server_timestamp, allowed_mismatch))
+            && scope_ok(self.cred(), region.spec_bytes(), service.spec_bytes(), self.ts()) ==> r is Ok, //# C02 C03 C04 name=inside_window_and_in_scope_is_accepted
+        r is Ok ==> (window_lo(server_timestamp, allowed_mismatch) <= self.ts() <= window_hi(server_timestamp, allowed_mismatch)), //# C04 C01 name=ok_implies_fresh
+        r is Ok ==> scope_ok(self.cred(), region.spec_bytes(), service.spec_bytes(), self.ts()), //# C03 C01 name=ok_implies_in_scope
 //@ bodystart
     proof { lemma_auth_literals(); }
 //@ before 1 `let mut cscope_errors = Vec::new();`
@@ -125,7 +126,7 @@ impl SigV4Authenticator {
 //@ end
 
 //@ fn auth.rs impl SigV4Authenticator :: get_string_to_sign
-//@ props C08 C01 C03 C16
+//@ props C08 C01 C03 C16 C17
 //@ ret r
 //@ replace 1 `self.credential().split_once('/').map(|x| x.1)` => `str_after_first(self.credential(), '/')`
 //@ spec
@@ -217,7 +218,7 @@ impl SigV4AuthenticatorResponse {
 }
 impl From<GetSigningKeyResponse> for SigV4AuthenticatorResponse {
 //@ fn auth.rs impl From<GetSigningKeyResponse> for SigV4AuthenticatorResponse :: from
-//@ props C08 C15
+//@ props C08 C15 C17
 //@ ret r
 //@ spec
     ensures r.s_principal() == request.s_principal() && r.s_session_data() == request.s_session_data(), //# C15 name=principal_and_session_data_pass_through
